@@ -43,6 +43,9 @@ pub mod h_input {
 pub mod h_text {
     include!(concat!(env!("CHUMSKY_VERIF_DIR"), "/h_text.rs"));
 }
+pub mod h_iter2 {
+    include!(concat!(env!("CHUMSKY_VERIF_DIR"), "/h_iter2.rs"));
+}
 pub mod h_err {
     include!(concat!(env!("CHUMSKY_VERIF_DIR"), "/h_err.rs"));
 }
@@ -63,4 +66,5 @@ pub fn register_all(r: &mut Vec<(&'static str, fn())>) {
     h_inputref::register(r);
     h_top2::register(r);
     h_err::register(r);
+    h_iter2::register(r);
 }
